@@ -10,7 +10,11 @@ COMMON_NOTE = ("Trusted: Coq 8.16.1 kernel and VM (vm_compute; no native_compute
                "harness (tools/impl, tools/props) that runs /repo's code and writes the case shards; the hand-written "
                "Gallina model is tied to /repo by the correspondence run of this check (exhaustive small scope + "
                "random), not by construction. Axioms per theorem as printed by Print Assumptions are copied into the "
-               "evidence (trusted_base).")
+               "evidence (trusted_base); the thorough tier adds coqchk -o of the property's file. Beyond what the text "
+               "above lists, the case sets include: node classes with user-defined special methods (eight kinds, one of "
+               "them tuple-based) in every tree-building check, start nodes that are not roots, SymlinkNode-mixed and "
+               "all-__slots__ trees, degenerate trees of 450-700 levels under the default recursion limit (C02, C05, "
+               "C15), and a regression corpus of minimal failing inputs from 178 seeded changes (DESIGN.md section 0).")
 
 CHECKS = {
     "C14": dict(
